@@ -6,37 +6,38 @@
 
    Histories as in C08: any durable start image respecting write-ahead, any interleaving (a new HTLC set arriving while
    the previous lifecycle is still finishing its bookkeeping included: the model runs any number of lifecycles of the
-   hash side by side), crashes anywhere, faults on every write and on pay; no injected error on a read rpc. *)
+   hash side by side), crashes anywhere, faults on every write and on pay, injected errors on listdatastore and on the restart
+   path's wait_payment; only an injected error on a read of the wait_payment inside pay() is excluded (KF-B), level [false]. *)
 From Tramp Require Import Model.Base Model.Fee Model.Classify Model.Node Model.Provider Model.ProviderSys Model.Sys.
 From Tramp Require Import Proofs.SysBasics Proofs.SysShape Proofs.SysTheorems Proofs.SysReach Proofs.SysCalls Proofs.SysNode Proofs.SysSafety.
 
 (* when a pay request is issued: every earlier part has failed (none pending, none complete) and no pay command runs *)
 Theorem C05_pay_only_when_nothing_live : forall c n t0 h0 a0 evs ev cid b am mf md rt,
-  node_ok n -> hist_wf c (sys_start n t0 h0 a0) evs ->
+  node_ok n -> hist_wf false c (sys_start n t0 h0 a0) evs ->
   let s := after c n t0 h0 a0 evs in
   In (OCall cid (QPay b am mf md rt)) (snd (step c s ev)) ->
   all_failed (parts (nd s)) /\ payrun (nd s) = 0.
 Proof.
   intros c n t0 h0 a0 evs ev cid b am mf md rt Hn Hwf s Hin.
-  exact (proj1 (pay_only_when_quiet c s ev cid b am mf md rt (after_wreach c n t0 h0 a0 evs Hn Hwf) Hin)).
+  exact (proj1 (pay_only_when_quiet false c s ev cid b am mf md rt (after_wreach false c n t0 h0 a0 evs Hn Hwf) Hin)).
 Qed.
 
 (* at most one pay request is outstanding (unprocessed, running, or answered and not yet consumed) at any instant *)
 Theorem C05_one_pay_at_a_time : forall c n t0 h0 a0 evs k1 k2 cl1 cl2,
-  node_ok n -> hist_wf c (sys_start n t0 h0 a0) evs ->
+  node_ok n -> hist_wf false c (sys_start n t0 h0 a0) evs ->
   let s := after c n t0 h0 a0 evs in
   nth_error (calls s) k1 = Some cl1 -> nth_error (calls s) k2 = Some cl2 ->
   is_pay (c_rpc cl1) = true -> is_pay (c_rpc cl2) = true -> live (c_st cl1) -> live (c_st cl2) -> k1 = k2.
-Proof. intros c n t0 h0 a0 evs k1 k2 cl1 cl2 Hn Hwf. exact (one_pay_at_a_time c _ k1 k2 cl1 cl2 (after_wreach c n t0 h0 a0 evs Hn Hwf)). Qed.
+Proof. intros c n t0 h0 a0 evs k1 k2 cl1 cl2 Hn Hwf. exact (one_pay_at_a_time false c _ k1 k2 cl1 cl2 (after_wreach false c n t0 h0 a0 evs Hn Hwf)). Qed.
 
 (* once a part has completed (the invoice is paid) no pay request is ever issued again, whatever happens later *)
 Theorem C05_paid_never_paid_again : forall c n t0 h0 a0 evs evs' ev p cid b am mf md rt,
-  node_ok n -> hist_wf c (sys_start n t0 h0 a0) (evs ++ evs') ->
+  node_ok n -> hist_wf false c (sys_start n t0 h0 a0) (evs ++ evs') ->
   has_done p (parts (nd (after c n t0 h0 a0 evs))) ->
   ~ In (OCall cid (QPay b am mf md rt)) (snd (step c (after c n t0 h0 a0 (evs ++ evs')) ev)).
 Proof.
   intros c n t0 h0 a0 evs evs' ev p cid b am mf md rt Hn Hwf Hd Hin.
-  pose proof (pay_only_when_quiet c _ ev cid b am mf md rt (after_wreach c n t0 h0 a0 (evs ++ evs') Hn Hwf) Hin) as ((Haf & _) & _).
+  pose proof (pay_only_when_quiet false c _ ev cid b am mf md rt (after_wreach false c n t0 h0 a0 (evs ++ evs') Hn Hwf) Hin) as ((Haf & _) & _).
   apply (has_done_not_all_failed p _ ) in Haf; [exact Haf|].
   unfold after in *. 
   assert (R : forall l1 l2 s0, fst (run c s0 (l1 ++ l2)) = fst (run c (fst (run c s0 l1)) l2)).
